@@ -328,6 +328,47 @@ func runC03(c *core.Ctx) {
 			}
 		}
 
+		// ---- a frame that is, for an unrelated reason, not serialisable at the moment (16+ bytes of FOpts,
+		// or payload bytes without an FPort) and is repaired afterwards: each call on the way either
+		// reports an error and leaves the payload alone, or applies the transform exactly once
+		if i%8 == 5 && len(d.Spec.FRMPayload) > 0 && !d.FRMIsMAC {
+			phy := d.Lib()
+			mp := phy.MACPayload.(*lorawan.MACPayload)
+			keepFOpts, keepPort := mp.FHDR.FOpts, mp.FPort
+			if r.Bool() {
+				mp.FHDR.FOpts = []lorawan.Payload{&lorawan.DataPayload{Bytes: r.Bytes(16 + r.Intn(4))}}
+			} else {
+				mp.FPort = nil
+			}
+			cur := append([]byte{}, d.Spec.FRMPayload...)
+			fkey := key
+			ks := spec.FRMKeystream(fkey, up, d.Spec.DevAddr, d.Spec.FCnt, len(cur))
+			for step := 0; step < 2; step++ {
+				var err error
+				c.Eval(1)
+				if p, msg := core.Guard(func() { err = phy.EncryptFRMPayload(lorawan.AES128Key(fkey)) }); p {
+					c.Violate("C03|method|EncryptFRMPayload|panic-on-unserialisable-frame", "%s", short(msg, 200))
+					break
+				}
+				got, _ := payloadBytes(mp.FRMPayload)
+				if err != nil {
+					if !bytes.Equal(got, cur) {
+						c.Violate("C03|method|EncryptFRMPayload|error-but-transformed", "step %d: EncryptFRMPayload returned %v yet the payload changed from %x to %x", step, err, cur, got)
+						break
+					}
+				} else {
+					want := spec.XOR(cur, ks)
+					if !bytes.Equal(got, want) {
+						c.Violate("C03|method|EncryptFRMPayload|success-but-not-the-transform", "step %d (after an earlier call on the same frame %s): payload %x, expected %x", step, map[bool]string{true: "failed", false: "succeeded"}[step > 0], got, want)
+						break
+					}
+					cur = want
+				}
+				mp.FHDR.FOpts, mp.FPort = keepFOpts, keepPort // repaired before the second call
+			}
+			c.Shape("repaired-frame", up, mp.FPort == nil)
+		}
+
 		// ---- over-long FOpts: transform or error, never silent success
 		if i%4 == 0 {
 			ln := 16 + r.Intn(25)
